@@ -72,7 +72,7 @@ def parse_class(g: Grammar, text: str) -> Optional[str]:
 
 def rewriter_table(repo: Repo) -> Dict[str, str]:
     mod = repo.mod("xlate")
-    fn = mod.func("C7N_Rewriter.primitive")
+    fn = mod.func_n("C7N_Rewriter.primitive")
     for n in ast.walk(fn):
         if isinstance(n, ast.Dict) and len(n.keys) > 10:
             out = {}
@@ -133,6 +133,70 @@ def paren_threshold(ret: ast.expr) -> Optional[Tuple[str, int]]:
     return None
 
 
+def branch_threshold(b: Dict) -> Optional[Tuple[str, int]]:
+    """Parenthesisation rule of one connective branch, from every return in it: the conditional expression
+    `f"(..)" if level > K else ..`, or the statement form `if level > K: return f"(..)"` / `return ..`."""
+    node = b["node"]
+    pairs = []  # (K or None, polarity, parenthesised)
+
+    def is_par(e: ast.expr) -> Optional[bool]:
+        e = strip_cast(e)
+        s = ast.unparse(e).replace("'", '"')
+        if s.startswith('f"(') or s.startswith('f"! ('):
+            return True
+        if isinstance(e, ast.Name):
+            return False
+        if isinstance(e, ast.Call) and (dotted(e.func) or "").endswith("primitive"):
+            return None  # not an emitting return of this connective
+        return None
+
+    def level_test(t: ast.expr) -> Optional[int]:
+        t = strip_cast(t)
+        if isinstance(t, ast.Compare) and len(t.ops) == 1 and isinstance(t.left, ast.Name) and t.left.id == "level" and isinstance(t.comparators[0], ast.Constant):
+            k = t.comparators[0].value
+            return {"Gt": k, "GtE": k - 1}.get(type(t.ops[0]).__name__)
+        return None
+
+    for r in ast.walk(ast.Module(body=node.body, type_ignores=[])):
+        if not isinstance(r, ast.Return) or r.value is None:
+            continue
+        vals = [(None, None, r.value)]
+        v = strip_cast(r.value)
+        if isinstance(v, ast.IfExp) and level_test(v.test) is not None:
+            vals = [(level_test(v.test), True, v.body), (level_test(v.test), False, v.orelse)]
+        # statement guards between the return and the branch
+        p = getattr(r, "_parent", None)
+        child = r
+        guard = (None, None)
+        while p is not None and p is not node:
+            if isinstance(p, ast.If) and level_test(p.test) is not None:
+                guard = (level_test(p.test), child in p.body)
+            child, p = p, getattr(p, "_parent", None)
+        for k, pol, e in vals:
+            par = is_par(e)
+            if par is None:
+                continue
+            if k is None:
+                k, pol = guard
+            pairs.append((k, pol, par))
+    if not pairs:
+        return None
+    if all(par for _k, _p, par in pairs):
+        return ("always", 0)
+    if not any(par for _k, _p, par in pairs):
+        return ("never", 0)
+    ks = {k for k, pol, par in pairs if par}
+    if len(ks) != 1 or None in ks:
+        return None
+    (k,) = ks
+    for kk, pol, par in pairs:
+        if par and not (kk == k and pol is True):
+            return None
+        if not par and not ((kk == k and pol is False) or kk is None):
+            return None
+    return (">", k)
+
+
 def check(repo: Repo, run: Run) -> None:
     run.explanation = (
         "B1: connective table of logical_connector (or -> ' || '; and, list, multi-child not -> ' && '; not -> `! ( ... )`). "
@@ -146,7 +210,7 @@ def check(repo: Repo, run: Run) -> None:
     )
     mod = repo.mod("xlate")
     g = grammar(repo)
-    lc = mod.func("C7N_Rewriter.logical_connector")
+    lc = mod.func_n("C7N_Rewriter.logical_connector")
     branches = connector_branches(lc)
     kinds = {b["kind"] for b in branches}
     if kinds != {"not", "or", "and", "list"}:
@@ -262,8 +326,7 @@ def check(repo: Repo, run: Run) -> None:
     # B2: composition safety over abstract levels ------------------------------
     thr: Dict[str, Optional[Tuple[str, int]]] = {}
     for b in branches:
-        ts = {paren_threshold(r) for r in b["returns"]}
-        thr[b["kind"]] = ts.pop() if len(ts) == 1 else None
+        thr[b["kind"]] = branch_threshold(b)
         if thr[b["kind"]] is None:
             run.inconclusive("C18.B2", f"logical_connector[{b['kind']}]", "parenthesisation is not `(..) if level > K else ..` / always / never")
     prim = set(P)
